@@ -7,8 +7,12 @@
 //   (next representable value of the query type), midway between neighbours, above the back.
 // O: linear scan for the four documented cases.
 #include "c20.hpp"
+#include <atomic>
+#include <chrono>
 #include <compare>
+#include <cstdlib>
 #include <limits>
+#include <thread>
 using namespace c20;
 using smooth::utils::binary_interval_search;
 
@@ -17,6 +21,64 @@ struct Item  // NOT convertible to double: the interpolation step of the search 
 {
   int key;
   const char * payload;
+};
+
+/// Non-termination containment (local to this check; the explorer itself only contains crashes): a search that
+/// does not return is a violation of "obeys its four documented cases". While at least one library call is in
+/// flight and no call at all has completed for 30 s (a call takes well under a microsecond), abort(): the
+/// explorer's parent process then reports the in-flight indices as VIOLATION (kind "crash") with replay files.
+struct Watchdog
+{
+  std::atomic<uint64_t> done{0};
+  std::atomic<int> inflight{0};
+  std::atomic<bool> stop{false};
+  std::thread th;
+  Watchdog()
+  {
+    th = std::thread([this] {
+      using clk     = std::chrono::steady_clock;
+      uint64_t last = done.load();
+      auto t_last   = clk::now();
+      while (!stop.load()) {
+        std::this_thread::sleep_for(std::chrono::milliseconds(100));
+        const uint64_t d = done.load();
+        if (d != last || inflight.load() == 0) {
+          last   = d;
+          t_last = clk::now();
+        } else if (clk::now() - t_last > std::chrono::seconds(30)) {
+          fprintf(stderr, "C20: binary_interval_search has not returned for 30 s (non-termination) -- aborting sub-check\n");
+          fflush(stderr);
+          std::abort();
+        }
+      }
+    });
+  }
+  ~Watchdog()
+  {
+    stop = true;
+    th.join();
+  }
+};
+Watchdog * g_wd = nullptr;
+struct Beat
+{
+  Beat()
+  {
+    if (g_wd) g_wd->inflight++;
+  }
+  ~Beat()
+  {
+    if (g_wd) {
+      g_wd->done++;
+      g_wd->inflight--;
+    }
+  }
+};
+struct WatchdogScope
+{
+  Watchdog w;
+  WatchdogScope() { g_wd = &w; }
+  ~WatchdogScope() { g_wd = nullptr; }
 };
 
 /// the four documented cases, by linear scan; returns the expected offset from begin (n = end)
@@ -48,8 +110,12 @@ void judge_search(mc::Case & c, const R & r, const T & t, Key key, Wo &... wo)
   const char * cls          = "";
   const std::ptrdiff_t want = spec(r, (L)t, key, cls);
   c.outcome(cls);
-  const auto it             = binary_interval_search(r, t, wo...);
-  const std::ptrdiff_t got  = it - std::ranges::cbegin(r);
+  std::ptrdiff_t got;
+  {
+    Beat beat;
+    const auto it = binary_interval_search(r, t, wo...);
+    got           = it - std::ranges::cbegin(r);
+  }
   c.param("got", (double)got);
   c.param("want", (double)want);
   c.require("documented case (linear scan)", got == want);
@@ -204,6 +270,7 @@ void run_long(const char * name, const std::vector<int> & strides, const std::ve
 
 MC_SUBCHECK(search_short)
 {
+  WatchdogScope wd;
   const auto RS = all_sorted_ranges(8, 5);
   mc::selfcheck("enumeration: 1287 sorted ranges of length 0..8 over 5 symbols", RS.size() == 1287);
   {
@@ -284,14 +351,19 @@ MC_SUBCHECK(search_short)
       const char * cls          = "";
       const std::ptrdiff_t want = spec(r, (L)(t / 2), key, cls);
       c.outcome(cls);
-      const auto it = binary_interval_search(r, t, wo);
-      c.require("documented case (linear scan)", (it - std::ranges::cbegin(r)) == want);
+      std::ptrdiff_t got;
+      {
+        Beat beat;
+        got = binary_interval_search(r, t, wo) - std::ranges::cbegin(r);
+      }
+      c.require("documented case (linear scan)", got == want);
     });
   }
 }
 
 MC_SUBCHECK(search_long)
 {
+  WatchdogScope wd;
   run_long<double, double>("double", {0, 1, 2}, {UNIFORM, QUADRATIC, GEOMETRIC});
   run_long<float, float>("float", {0, 1, 2}, {UNIFORM, QUADRATIC, GEOMETRIC});
   run_long<float, double>("float,double-query", {0, 1, 2}, {UNIFORM, QUADRATIC, GEOMETRIC});
